@@ -4,6 +4,7 @@
 import itertools
 import logging
 import math
+import zlib
 from collections import Counter
 
 import numpy as np
@@ -52,7 +53,7 @@ QUERIES = [
     "edges", "edges_face", "edges_sorted", "edges_unique", "edges_unique_inverse", "edges_unique_length",
     "faces_unique_edges", "face_adjacency", "face_adjacency_edges", "face_adjacency_unshared", "vertex_neighbors",
     "vertex_faces", "vertex_degree", "referenced_vertices", "body_count", "euler_number", "is_watertight",
-    "is_winding_consistent", "edges_sparse", "faces_sparse",
+    "is_winding_consistent", "edges_sparse", "faces_sparse", "face_angles", "vertex_defects",
 ]  # fmt: skip
 
 # signatures of the defects found on the unchanged tree: when a case fails several clauses the
@@ -62,6 +63,8 @@ DEFERRED = (
     "C05.topo|vertex_faces|lists_face_per_slot|repeated_index",
     "C05.topo|exc|vertex_faces|ValueError|trimesh/geometry.py:vertex_face_indices|empty",
     "C05.topo|connected_components|min_len_ignored|engine=networkx",
+    "C05.topo|face_angles|degenerate_not_zeroed|repeated_index",
+    "C05.topo|vertex_defects|vertex|repeated_index",
 )
 
 
@@ -108,7 +111,7 @@ class Collector:
             return
         # stable sort: a clause that is not a listed known finding first, then one that is not among the
         # defects already found, then the clause a replay file wants to show (`focus`)
-        self.fails.sort(key=lambda f: (ctx.is_known(f[0]) is not None, f[0] in DEFERRED, bool(focus) and focus not in f[0]))
+        self.fails.sort(key=lambda f: (ctx.is_known(f[0]) is not None, f[0].startswith(DEFERRED), bool(focus) and focus not in f[0]))
         sig, msg = self.fails[0]
         more = "" if len(self.fails) == 1 else f" (+{len(self.fails) - 1} more failed clauses: {sorted({f[0] for f in self.fails[1:]})[:4]})"
         raise Violation(sig, f"{msg}{more} :: {case_text}")
@@ -129,8 +132,66 @@ def _parts(groups):
     return Counter(frozenset(int(i) for i in g) for g in groups)
 
 
+def _split_keys(parts):
+    """list of sub-meshes -> Counter of (sorted face rows, vertex bytes)"""
+    return Counter((tuple(sorted(_rows(m.faces, 3))), np.asarray(m.vertices, dtype=np.float64).tobytes()) for m in parts)
+
+
 def _want_parts(partition, min_len=1):
     return Counter(p for p in partition if len(p) >= min_len)
+
+
+SCALES = [1.0, 1e-6, 1e-5, 1e-4, 1e-3, 1e-2, 1e2, 1e4, 1e6]
+STEP_KINDS = ["translate", "scale", "rigid", "mirror", "affine"]
+
+
+def _oracle(faces, nv):
+    """everything the counting oracle says about one face list"""
+    w = {"faces": faces, "nv": nv, "nf": len(faces)}
+    w["w_edges"], w["w_edges_face"] = O.directed_edges(faces)
+    w["w_sorted"] = [O.sort_edge(e) for e in w["w_edges"]]
+    w["occ"] = O.edge_occurrences(faces)
+    w["w_adj"] = O.adjacency(faces)
+    w["w_fcomp"] = O.face_components(faces)
+    w["w_vcomp"] = O.vertex_components(faces, nv)
+    w["w_vfaces"] = O.vertex_faces(faces, nv)
+    w["w_degree"] = [len(r) for r in w["w_vfaces"]]
+    w["w_mult"] = O.vertex_multiplicity(faces, nv)
+    w["w_ref"] = O.referenced(faces, nv)
+    w["w_euler"] = O.euler_number(faces, nv)
+    w["w_water"] = O.watertight(faces)
+    w["w_wind"] = O.winding_consistent(faces)
+    w["rep"] = O.repeated_vertices(faces)
+    w["cls"] = O.input_class(faces, nv)
+    w["manifold"] = O.closed_manifold(faces, nv)
+    return w
+
+
+def _apply_step(mesh, step, scale):
+    """one in-place transform of the mesh, built from a seed: translation, uniform scale, rotation +
+    translation, rotation + reflection (flips the winding), well conditioned general affine map"""
+    rs = np.random.RandomState(int(step["seed"]) & 0x7FFFFFFF)
+    q, _ = np.linalg.qr(rs.normal(size=(3, 3)))
+    if np.linalg.det(q) < 0:
+        q[:, 0] *= -1.0
+    shift = rs.uniform(-1.0, 1.0, 3) * scale
+    kind = step["kind"]
+    if kind == "translate":
+        mesh.apply_translation(shift)
+        return
+    if kind == "scale":
+        mesh.apply_scale(float(10.0 ** rs.uniform(-1.5, 1.5)))
+        return
+    m = np.eye(4)
+    m[:3, 3] = shift
+    if kind == "rigid":
+        m[:3, :3] = q
+    elif kind == "mirror":
+        m[:3, :3] = q @ np.diag([-1.0, 1.0, 1.0])
+    else:
+        # I + E with |E| <= 0.75: singular values in [0.25, 1.75]
+        m[:3, :3] = q @ (np.eye(3) + 0.25 * rs.uniform(-1.0, 1.0, (3, 3)))
+    mesh.apply_transform(m)
 
 
 @body("C05.topo")
@@ -139,70 +200,90 @@ def b_topo(case, ctx):
     nv = int(case["nv"])
     nf = len(faces)
     src = case.get("src", "?")
-    pos = np.random.RandomState(int(case.get("pseed", 0)) & 0x7FFFFFFF).uniform(-1.0, 1.0, (nv, 3))
+    scale = float(case.get("scale", 1.0))
+    steps = case.get("steps") or []
+    pos = np.random.RandomState(int(case.get("pseed", 0)) & 0x7FFFFFFF).uniform(-1.0, 1.0, (nv, 3)) * scale
     farr = np.array(faces, dtype=np.int64).reshape((-1, 3))
 
-    # ------------------------------------------------------------------ oracle side
-    w_edges, w_edges_face = O.directed_edges(faces)
-    w_sorted = [O.sort_edge(e) for e in w_edges]
-    occ = O.edge_occurrences(faces)
-    w_adj = O.adjacency(faces)
-    w_fcomp = O.face_components(faces)
-    w_vcomp = O.vertex_components(faces, nv)
-    w_vfaces = O.vertex_faces(faces, nv)
-    w_degree = [len(r) for r in w_vfaces]
-    w_mult = O.vertex_multiplicity(faces, nv)
-    w_ref = O.referenced(faces, nv)
-    w_euler = O.euler_number(faces, nv)
-    w_water = O.watertight(faces)
-    w_wind = O.winding_consistent(faces)
-    rep = O.repeated_vertices(faces)
-    cls = O.input_class(faces, nv)
-    manifold = O.closed_manifold(faces, nv)
-
-    shared = any(len({w_edges_face[k] for k in ks}) >= 2 for ks in occ.values())
+    w = _oracle(faces, nv)
+    occ, cls = w["occ"], w["cls"]
+    shared = any(len({w["w_edges_face"][k] for k in ks}) >= 2 for ks in occ.values())
     labels = [f"{src.split(':')[0]}:{cls}"]
-    if rep:
+    if w["rep"]:
         labels.append("has:repeated_index")
     if any(len(ks) >= 3 for ks in occ.values()):
         labels.append("has:edge_count>=3")
     if len(set(tuple(sorted(f)) for f in faces)) < nf:
         labels.append("has:duplicate_face")
-    if not all(w_ref):
+    if not all(w["w_ref"]):
         labels.append("has:unreferenced_vertex")
-    if len(w_fcomp) > 1:
+    if len(w["w_fcomp"]) > 1:
         labels.append("has:multi_face_component")
-    if any(len(ks) == 2 for ks in occ.values()) and not w_wind:
+        if len(w["w_fcomp"]) > len([p for p in w["w_vcomp"] if len(p) > 1 or any(p & set(f) for f in faces)]):
+            # more face components than vertex components: pieces touch without being adjacent
+            labels.append("has:components_touch_closed" if w["w_water"] else "has:components_touch")
+    if any(len(ks) == 2 for ks in occ.values()) and not w["w_wind"]:
         labels.append("has:winding_inconsistent")
-    if any(r[2][0] == r[2][1] for r in w_adj):
+    if any(r[2][0] == r[2][1] for r in w["w_adj"]):
         labels.append("has:adjacent_through_loop_edge")
-    if manifold:
-        labels.append("closed_manifold:euler=%d" % w_euler if w_euler in (0, 2) else "closed_manifold:euler=other")
+    if w["manifold"]:
+        labels.append("closed_manifold:euler=%d" % w["w_euler"] if w["w_euler"] in (0, 2) else "closed_manifold:euler=other")
+        labels.append("closed_manifold:scale=%g" % scale)
+    labels.append("scale=%g" % scale)
+    labels += ["warm:" + st_["kind"] for st_ in steps] or ["fresh"]
     ctx.note(nontrivial=shared, cls=labels)
 
     # ------------------------------------------------------------------ implementation side
     col = Collector()
     mesh = trimesh.Trimesh(vertices=pos, faces=farr, process=False, validate=False)
-    order = list(QUERIES)
-    np.random.RandomState(int(case.get("oseed", 0)) & 0x7FFFFFFF).shuffle(order)
-    got = {}
-    for name in order:
-        got[name] = col.call(name, lambda name=name: getattr(mesh, name), cls)
-    text = f"faces={case['faces'] if nf <= 16 else str(case['faces'][:16]) + '...'} nv={nv}"
-
-    try:
-        _compare(col, mesh, got, locals())
-    except Violation as v:
-        col.fails.append((v.sig, v.msg))
+    text = f"faces={case['faces'] if nf <= 16 else str(case['faces'][:16]) + '...'} nv={nv} scale={scale:g} steps={[s_['kind'] for s_ in steps]}"
+    oseed = int(case.get("oseed", 0)) & 0x7FFFFFFF
+    tag = ""
+    for phase in range(len(steps) + 1):
+        last = phase == len(steps)
+        if phase:
+            step = steps[phase - 1]
+            done = col.call("apply:" + step["kind"], lambda: (_apply_step(mesh, step, scale), True)[1], cls)
+            if done is None:
+                break
+            tag = "|after:" + "+".join(s_["kind"] for s_ in steps[:phase])
+            # the face and vertex arrays are data, not cached queries: the oracle restarts from them
+            now = [tuple(int(v) for v in f) for f in np.asarray(mesh.faces).reshape((-1, 3)).tolist()]
+            if now != w["faces"]:
+                w = _oracle(now, nv)
+        rs = np.random.RandomState((oseed + 7919 * phase) & 0x7FFFFFFF)
+        order = list(QUERIES)
+        rs.shuffle(order)
+        if not last:
+            # a warm object: only some of the queries have been asked before the next transform
+            order = [n for n in order if rs.randint(0, 2)]
+        got = dict.fromkeys(QUERIES)
+        for name in order:
+            before = len(col.fails)
+            got[name] = col.call(name, lambda name=name: getattr(mesh, name), cls + tag)
+            if got[name] is None and len(col.fails) == before:
+                col.check(False, f"C05.topo|{name}|returned_None{tag}", f"mesh.{name} is None")
+        w["pos"] = np.array(mesh.vertices, dtype=np.float64).reshape((-1, 3))
+        w["farr"] = np.array(w["faces"], dtype=np.int64).reshape((-1, 3))
+        try:
+            _compare(col, mesh, got, w, tag, full=last)
+        except Violation as v:
+            col.fails.append((v.sig, v.msg))
     col.finish(text, ctx, case.get("focus"))
 
 
-def _compare(col, mesh, got, w):
-    faces, nv, nf, cls, pos, farr = w["faces"], w["nv"], w["nf"], w["cls"], w["pos"], w["farr"]
+def _compare(col, mesh, got, w, tag="", full=True):
+    """compare what was read (`got`, None = not read) with the oracle `w`; `full` adds the calls which
+    are not cached properties (free functions, components on both engines, split); `tag` names the
+    transforms applied before the read and is part of every signature"""
+    faces, nv, nf, pos, farr = w["faces"], w["nv"], w["nf"], w["pos"], w["farr"]
     w_edges, w_edges_face, w_sorted, occ = w["w_edges"], w["w_edges_face"], w["w_sorted"], w["occ"]
     w_adj, w_fcomp, w_vcomp = w["w_adj"], w["w_fcomp"], w["w_vcomp"]
     rep = w["rep"]
-    check = col.check
+    cls = w["cls"] + tag
+
+    def check(cond, sig, msg=""):
+        return col.check(cond, sig if sig.endswith(cls) or not tag else sig + tag, msg)
 
     # ---- edges: documented order, stacked in triplets
     if got["edges"] is not None:
@@ -211,7 +292,7 @@ def _compare(col, mesh, got, w):
         check([int(i) for i in np.asarray(got["edges_face"]).reshape(-1)] == w_edges_face, "C05.topo|edges_face", lambda: f"{np.asarray(got['edges_face']).tolist()} want {w_edges_face}")
     if got["edges_sorted"] is not None:
         check(_rows(got["edges_sorted"], 2) == w_sorted, "C05.topo|edges_sorted", lambda: f"{np.asarray(got['edges_sorted']).tolist()} want {w_sorted}")
-    free = col.call("faces_to_edges", lambda: geometry.faces_to_edges(farr, return_index=True), cls)
+    free = col.call("faces_to_edges", lambda: geometry.faces_to_edges(farr, return_index=True), cls) if full else None
     if free is not None:
         check(_rows(free[0], 2) == w_edges and [int(i) for i in free[1]] == w_edges_face, "C05.topo|faces_to_edges", "free function differs from definition")
 
@@ -260,7 +341,7 @@ def _compare(col, mesh, got, w):
                 fau = _rows(fau, 2)
                 ok = len(fau) == len(fa) and all(unshared_of.get(p + e) == u for p, e, u in zip(fa, fae, fau))
                 check(ok, f"C05.topo|face_adjacency_unshared|{cls}", lambda: f"pairs {fa} edges {fae} unshared {fau} want {unshared_of}")
-    free = col.call("graph.face_adjacency", lambda: graph.face_adjacency(faces=farr.copy(), return_edges=True), cls)
+    free = col.call("graph.face_adjacency", lambda: graph.face_adjacency(faces=farr.copy(), return_edges=True), cls) if full else None
     if free is not None and nf:
         a, e = _rows(free[0], 2), _rows(free[1], 2)
         check(len(a) == len(e) and Counter(p + q for p, q in zip(a, e)) == want_adj, f"C05.topo|graph.face_adjacency(faces)|{cls}", lambda: f"pairs {a} edges {e} want {sorted(want_adj.elements())}")
@@ -334,7 +415,14 @@ def _compare(col, mesh, got, w):
     aarr = np.array([r[:2] for r in w_adj], dtype=np.int64).reshape((-1, 2))
     used = sorted({v for f in faces for v in f})
     w_vcomp_used = {p for p in w_vcomp if p & set(used)}
-    for eng in ENGINES:
+    comp_key, comp_closed = {}, {}
+    if full:
+        for p_ in w_fcomp:
+            vs = sorted({v for i in p_ for v in faces[i]})
+            new = {v: k for k, v in enumerate(vs)}
+            comp_key[p_] = (tuple(sorted(tuple(new[v] for v in faces[i]) for i in p_)), pos[vs].tobytes())
+            comp_closed[p_] = O.watertight([faces[i] for i in p_])
+    for eng in ENGINES if full else ():
         cc = col.call("connected_components", lambda: graph.connected_components(earr, nodes=np.arange(nv), engine=eng), cls)
         if cc is not None:
             check(_parts(cc) == _want_parts(w_vcomp), f"C05.topo|connected_components|vertex_graph|engine={eng}", lambda: f"{[list(map(int, c)) for c in cc]} want {sorted(map(sorted, w_vcomp))}")
@@ -354,19 +442,31 @@ def _compare(col, mesh, got, w):
                 else:
                     sig = f"C05.topo|connected_components|face_graph|min_len{'=1' if min_len == 1 else '>1'}|engine={eng}"
                 check(False, sig, f"min_len={min_len}: {[list(map(int, c)) for c in cc]} want {sorted(map(sorted, wnt))}")
-        # split into sub-meshes by face connectivity
+        # split into sub-meshes by face connectivity: exact when nothing is repaired
         parts = col.call("split", lambda: mesh.split(only_watertight=False, repair=False, engine=eng), cls)
         if parts is not None:
-            want = Counter()
-            for p in w_fcomp:
-                vs = sorted({v for i in p for v in faces[i]})
-                new = {v: k for k, v in enumerate(vs)}
-                want[(tuple(sorted(tuple(new[v] for v in faces[i]) for i in p)), pos[vs].tobytes())] += 1
-            have = Counter()
-            for s in parts:
-                have[(tuple(sorted(_rows(s.faces, 3))), np.asarray(s.vertices, dtype=np.float64).tobytes())] += 1
-            check(have == want, f"C05.topo|split|engine={eng}|{cls}", lambda: f"split gave faces {[np.asarray(s.faces).tolist() for s in parts]}, face components {sorted(map(sorted, w_fcomp))}")
-    if nf:
+            check(_split_keys(parts) == Counter(comp_key.values()), f"C05.topo|split|engine={eng}|{cls}", lambda: f"split gave faces {[np.asarray(s.faces).tolist() for s in parts]}, face components {sorted(map(sorted, w_fcomp))}")
+    if full:
+        # the documented defaults (repair=True fills small holes of OPEN pieces, only_watertight=True drops
+        # pieces which stay open or have fewer than 4 faces): closed pieces must come back untouched, nothing
+        # may be merged or invented.  One engine per case, alternating.
+        eng = ENGINES[zlib.crc32(pos.tobytes()) % 2]
+        closed = Counter(k for p_, k in comp_key.items() if comp_closed[p_])
+        big = [p_ for p_ in w_fcomp if len(p_) >= 4]
+        parts = col.call("split", lambda: mesh.split(only_watertight=False, engine=eng), cls)
+        if parts is not None:
+            have = _split_keys(parts)
+            ok = len(parts) == len(w_fcomp) and not (closed - have) and Counter(k[1] for k in have.elements()) == Counter(k[1] for k in comp_key.values())
+            check(ok, f"C05.topo|split(only_watertight=False)|engine={eng}|{cls}", lambda: f"split gave faces {[np.asarray(s.faces).tolist() for s in parts]}, face components {sorted(map(sorted, w_fcomp))} of which closed {sorted(sorted(p_) for p_ in w_fcomp if comp_closed[p_])}")
+        parts = col.call("split", lambda: mesh.split(engine=eng), cls)
+        if parts is not None:
+            have = _split_keys(parts)
+            closed_big = Counter(comp_key[p_] for p_ in big if comp_closed[p_])
+            ok = not (closed_big - have) and len(parts) <= len(big)
+            ok = ok and not (Counter(k[1] for k in have.elements()) - Counter(comp_key[p_][1] for p_ in big))
+            ok = ok and all(len(k[0]) >= 4 and O.watertight(list(k[0])) for k in have.elements())
+            check(ok, f"C05.topo|split(only_watertight=True)|engine={eng}|{cls}", lambda: f"split gave faces {[np.asarray(s.faces).tolist() for s in parts]}, face components with >= 4 faces {sorted(map(sorted, big))} of which closed {sorted(sorted(p_) for p_ in big if comp_closed[p_])}")
+    if nf and full:
         lab = col.call("connected_component_labels", lambda: graph.connected_component_labels(aarr, node_count=nf), cls)
         if lab is not None:
             lab = [int(x) for x in np.asarray(lab).reshape(-1)]
@@ -378,25 +478,79 @@ def _compare(col, mesh, got, w):
     # ---- scalars
     if got["euler_number"] is not None:
         check(int(got["euler_number"]) == w["w_euler"], "C05.topo|euler_number", lambda: f"{got['euler_number']} want {sum(w['w_ref'])} - {len(occ)} + {nf}")
+    for name in ("is_watertight", "is_winding_consistent"):
+        if got[name] is not None:
+            check(isinstance(got[name], (bool, np.bool_)), f"C05.topo|{name}|type", lambda: f"{name} is {got[name]!r} ({type(got[name]).__name__}), not a bool")
     if nf:
         if got["is_watertight"] is not None:
             check(bool(got["is_watertight"]) == w["w_water"], f"C05.topo|is_watertight|{cls}", lambda: f"{got['is_watertight']}; edge counts {sorted(Counter(w_sorted).items())}")
         if got["is_winding_consistent"] is not None:
             check(bool(got["is_winding_consistent"]) == w["w_wind"], f"C05.topo|is_winding_consistent|{cls}", lambda: f"{got['is_winding_consistent']}; edges {w_edges}")
-        free = col.call("graph.is_watertight", lambda: graph.is_watertight(earr.copy()), cls)
+        free = col.call("graph.is_watertight", lambda: graph.is_watertight(earr.copy()), cls) if full else None
         if free is not None:
             check((bool(free[0]), bool(free[1])) == (w["w_water"], w["w_wind"]), "C05.topo|graph.is_watertight(edges)", lambda: f"{free} want {(w['w_water'], w['w_wind'])}")
 
-    # ---- angle defects on closed manifold meshes
-    if w["manifold"] and O.min_angle(faces, pos.tolist()) > 1e-4:
-        vd = col.call("vertex_defects", lambda: mesh.vertex_defects, cls)
-        if vd is not None:
-            vd = np.asarray(vd, dtype=np.float64).reshape(-1)
+    # ---- interior angles and angle defects (scale free: a uniformly scaled mesh has the same angles)
+    fang, vdef = got["face_angles"], got["vertex_defects"]
+    w_ang = O.face_angles(faces, pos.tolist()) if (fang is not None or vdef is not None) else None
+    trusted = None
+    if w_ang is not None:
+        # a face is compared when it is degenerate by its indices (documented: "degenerate angles will be
+        # returned as zero") or when its smallest angle is far above the documented tol.merge=1e-8 zeroing
+        trusted = [a is None or min(a) > 1e-4 for a in w_ang]
+    if fang is not None:
+        fang = np.asarray(fang, dtype=np.float64)
+        ok = fang.shape == (nf, 3)
+        worst = None
+        not_zeroed = set()
+        if ok:
+            for i, (a, row) in enumerate(zip(w_ang, fang.tolist())):
+                if not trusted[i]:
+                    continue
+                if a is None:
+                    if row != [0.0, 0.0, 0.0]:
+                        not_zeroed.add(i)
+                    continue
+                else:
+                    # arccos of a dot product of unit vectors: error <= few eps / sin(angle)
+                    tol = 64 * EPS / math.sin(min(a))
+                    good = all(abs(x - y) <= tol for x, y in zip(row, a))
+                if not good:
+                    worst = (i, faces[i], row, a)
+                    break
+        if not_zeroed:
+            i = min(not_zeroed)
+            check(False, "C05.topo|face_angles|degenerate_not_zeroed|repeated_index", f"face {i} {faces[i]} repeats an index (two coincident corners) but its angles are {fang[i].tolist()}, documented: degenerate angles are returned as zero; vertices {pos[list(faces[i])].tolist()}")
+        check(ok and worst is None, "C05.topo|face_angles", lambda: f"shape {fang.shape}; face {worst[0]} {worst[1]} angles {worst[2]} want {worst[3] or 'zeros (repeated index)'}; vertices {pos[list(worst[1])].tolist()}" if worst else f"shape {fang.shape}")
+    if vdef is not None:
+        vdef = np.asarray(vdef, dtype=np.float64).reshape(-1)
+        ok = len(vdef) == nv
+        worst = None
+        if ok:
+            total = [0.0] * nv
+            tol = [8 * EPS * TWO_PI] * nv
+            fine = [True] * nv
+            degenerate = [False] * nv
+            for i, f in enumerate(faces):
+                for k, v in enumerate(f):
+                    if w_ang[i] is None:
+                        degenerate[v] = True
+                    if not trusted[i]:
+                        fine[v] = False
+                    elif w_ang[i] is not None:
+                        total[v] += w_ang[i][k]
+                        tol[v] += 64 * EPS / math.sin(min(w_ang[i])) + 4 * EPS * TWO_PI
+            for v in range(nv):
+                if fine[v] and abs(float(vdef[v]) - (TWO_PI - total[v])) > tol[v]:
+                    worst = (v, float(vdef[v]), TWO_PI - total[v], "repeated_index" if degenerate[v] else "plain")
+                    break
+        check(ok and worst is None, "C05.topo|vertex_defects|vertex|" + (worst[3] if worst else "length"), lambda: f"defect of vertex {worst[0]} is {worst[1]!r}, 2*pi - sum of incident angles = {worst[2]!r}" if worst else f"length {len(vdef)} != {nv}")
+        if ok and w["manifold"] and all(trusted):
             # every triangle's three angles sum to pi up to 2 roundings (third = pi - a - b); the
             # 3F+V additions of magnitude <= 2*pi*V each round once: worst case eps*2pi*(3F+V)^2
-            tol = EPS * TWO_PI * float(3 * nf + nv) ** 2
-            total = float(vd.sum())
-            check(len(vd) == nv and abs(total - TWO_PI * w["w_euler"]) <= tol, "C05.topo|vertex_defects|sum", lambda: f"sum of defects {total!r}, 2*pi*euler = {TWO_PI * w['w_euler']!r} (euler {w['w_euler']}), tol {tol:.2e}")
+            tol_sum = EPS * TWO_PI * float(3 * nf + nv) ** 2
+            total_sum = float(vdef.sum())
+            check(abs(total_sum - TWO_PI * w["w_euler"]) <= tol_sum, "C05.topo|vertex_defects|sum", lambda: f"sum of defects {total_sum!r}, 2*pi*euler = {TWO_PI * w['w_euler']!r} (euler {w['w_euler']}), tol {tol_sum:.2e}")
 
 
 # ---------------------------------------------------------------------------------- generators
@@ -404,9 +558,69 @@ def _compare(col, mesh, got, w):
 TRIPLES4 = list(itertools.product(range(4), repeat=3))
 
 
-def _enum_case(fs, extra, k):
+def _enum_steps(k):
+    """deterministic spread of warm-object histories over an enumeration: 1 case in 4 is transformed once,
+    1 in 16 twice; the kinds cycle"""
+    if k % 4 == 1:
+        return [{"kind": STEP_KINDS[(k // 4) % 5], "seed": k}]
+    if k % 16 == 3:
+        return [{"kind": STEP_KINDS[(k // 16) % 5], "seed": k}, {"kind": STEP_KINDS[(k // 80) % 5], "seed": k + 1}]
+    return []
+
+
+def _enum_case(fs, extra, k, src="enum"):
     top = max([v for f in fs for v in f] + [-1])
-    return {"faces": [list(f) for f in fs], "nv": top + 1 + extra, "pseed": 1000 + k, "oseed": k, "src": "enum"}
+    return {
+        "faces": [list(f) for f in fs],
+        "nv": top + 1 + extra,
+        "pseed": 1000 + k,
+        "oseed": k,
+        "scale": SCALES[(k // 3) % len(SCALES)],
+        "steps": _enum_steps(k),
+        "src": src,
+    }
+
+
+PIECES = {
+    "pillow": [(0, 1, 2), (0, 2, 1)],
+    "tetra": [(0, 2, 1), (0, 1, 3), (1, 2, 3), (2, 0, 3)],
+    "octa": [(0, 2, 4), (2, 1, 4), (1, 3, 4), (3, 0, 4), (2, 0, 5), (1, 2, 5), (3, 1, 5), (0, 3, 5)],
+}
+
+
+def enum_glued(full):
+    """two or three small closed pieces which are disjoint or touch in one vertex (pinch), one edge or one
+    triangle, in both relative orientations, at every scale, fresh and after every kind of transform"""
+    k = 0
+    names = sorted(PIECES)
+    for a in names:
+        for b in names:
+            for shared in (0, 1, 2, 3):
+                for reverse in (False, True):
+                    if shared < 2 and reverse:
+                        continue
+                    faces, n = O.glue(PIECES[a], PIECES[b], shared, reverse)
+                    variants = [(faces, n)]
+                    # a third piece pinched to the second one
+                    f3, n3 = O.glue([faces[-1]] + faces[:-1], PIECES["pillow"], 1, False)
+                    variants.append((f3, n3))
+                    for fs, nn in variants:
+                        for i, scale in enumerate(SCALES):
+                            histories = [[]] + [[{"kind": kind, "seed": k}] for kind in STEP_KINDS]
+                            # quick: every shape at every scale, the history cycling; thorough: the full product
+                            for steps in histories if full else [histories[(i + k) % 6]]:
+                                k += 1
+                                yield {"faces": [list(f) for f in fs], "nv": nn + (k % 5 == 0), "pseed": 500 + k, "oseed": k,
+                                       "scale": scale, "steps": steps, "src": "glued"}
+
+
+@st.composite
+def steps_and_scale(draw):
+    steps = draw(st.sampled_from([0, 0, 0, 1, 1, 2, 3]))
+    return {
+        "scale": draw(st.sampled_from(SCALES)),
+        "steps": [{"kind": draw(st.sampled_from(STEP_KINDS)), "seed": draw(st.integers(0, 2**31 - 1))} for _ in range(steps)],
+    }
 
 
 def enum_small(max_f):
@@ -439,8 +653,10 @@ def _variant(face, how):
 @st.composite
 def soup(draw):
     nvert = draw(st.integers(1, 9))
-    mode = draw(st.sampled_from(["free", "distinct", "distinct", "sparse", "fan", "mixed", "strip"]))
+    mode = draw(st.sampled_from(["free", "distinct", "distinct", "sparse", "fan", "mixed", "strip", "bouquet"]))
     if nvert < 3 and mode in ("distinct", "fan", "sparse", "strip"):
+        mode = "free"
+    if nvert < 4 and mode == "bouquet":
         mode = "free"
     idx = st.integers(0, nvert - 1)
     free = st.tuples(idx, idx, idx)
@@ -455,6 +671,17 @@ def soup(draw):
         faces = draw(st.lists(distinct, min_size=nbase, max_size=nbase))
     elif mode == "mixed":
         faces = draw(st.lists(st.one_of(distinct, distinct, free), min_size=nbase, max_size=nbase))
+    elif mode == "bouquet":
+        # 2-3 small closed pieces on randomly chosen labels: they are disjoint or touch in a vertex, an
+        # edge or a triangle just as the labels happen to coincide; unused labels are squeezed out
+        faces = []
+        for _ in range(draw(st.integers(2, 3))):
+            piece = PIECES[draw(st.sampled_from(["pillow", "pillow", "tetra"]))]
+            lab = draw(st.lists(idx, min_size=4, max_size=4, unique=True))
+            faces += [tuple(lab[v] for v in f) for f in piece]
+        used = sorted({v for f in faces for v in f})
+        faces = [tuple(used.index(v) for v in f) for f in faces]
+        nvert = len(used)
     elif mode == "strip":
         # relabelled triangle strip: an open manifold patch referencing every vertex, some faces flipped
         lab = draw(st.permutations(list(range(nvert))))
@@ -476,13 +703,15 @@ def soup(draw):
     if faces and draw(st.booleans()):
         faces = list(draw(st.permutations(faces)))
     extra = draw(st.sampled_from([0, 0, 0, 1, 2]))
-    return {
+    case = {
         "faces": [list(f) for f in faces],
         "nv": nvert + extra,
         "pseed": draw(st.integers(0, 2**31 - 1)),
         "oseed": draw(st.integers(0, 2**31 - 1)),
         "src": "hyp",
     }
+    case.update(draw(steps_and_scale()))
+    return case
 
 
 POOL_KINDS = ["pillow", "tetra", "octa", "box", "icos", "prism", "torus", "torus", "uvsphere"]
@@ -505,10 +734,34 @@ def pool_case(draw):
                 "duplicate": st.sampled_from([0, 0, 0, 1, 3]),
                 "flip": st.sampled_from([0, 0, 0, 1, 4]),
                 "extra": st.sampled_from([0, 0, 1, 3]),
+                "weld": st.sampled_from(["", "", "vertex", "vertex", "vertex2", "edge"]),
             }
         )
     )
     tags = []
+    if ops["weld"]:
+        # identify vertices of two different bodies (of one body when there is only one): the pieces
+        # then touch in a pinch vertex, in two pinch vertices or along an edge without becoming adjacent
+        comps = sorted(map(sorted, O.vertex_components([tuple(f) for f in F.tolist()], nvert)))
+        ca = comps[rs.randint(len(comps))]
+        cb = comps[rs.randint(len(comps))]
+        fa = F[rs.choice(np.nonzero(np.isin(F, ca).all(axis=1))[0])]
+        fb = F[rs.choice(np.nonzero(np.isin(F, cb).all(axis=1))[0])]
+        if ops["weld"] == "edge":
+            pairs = [(fa[0], fb[1]), (fa[1], fb[0])]
+        elif ops["weld"] == "vertex2":
+            pairs = [(fa[0], fb[0]), (rs.choice(ca), rs.choice(cb))]
+        else:
+            pairs = [(fa[rs.randint(3)], fb[rs.randint(3)])]
+        for u, v in pairs:
+            u, v = int(min(u, v)), int(max(u, v))
+            if u == v or v >= nvert:
+                continue
+            F[F == v] = u
+            F[F > v] -= 1
+            nvert -= 1
+            pairs = [(a - (a > v), b - (b > v)) for a, b in pairs]
+        tags.append("weld_" + ops["weld"])
     if ops["delete"]:
         keep = np.ones(len(F), dtype=bool)
         keep[rs.choice(len(F), size=min(ops["delete"], len(F) - 1), replace=False)] = False
@@ -533,13 +786,15 @@ def pool_case(draw):
     if ops["permute"]:
         F = F[rs.permutation(len(F))]
     kinds = "+".join(p["kind"] for p in spec["parts"])
-    return {
+    case = {
         "faces": F.tolist(),
         "nv": nvert,
         "pseed": draw(st.integers(0, 2**31 - 1)),
         "oseed": draw(st.integers(0, 2**31 - 1)),
         "src": f"pool:{kinds}:{'+'.join(tags) or 'intact'}",
     }
+    case.update(draw(steps_and_scale()))
+    return case
 
 
 # ---------------------------------------------------------------------------------- sub-checks
@@ -548,6 +803,11 @@ def pool_case(draw):
 @subcheck("C05", "enum_f2", shards={"quick": 8, "thorough": 8})
 def s_enum_f2(ctx):
     ctx.enumerate("C05.topo", enum_small(2), label="all_face_arrays_F<=2_over_4_indices_x_{V,V+1}")
+
+
+@subcheck("C05", "glued", shards={"quick": 4, "thorough": 4})
+def s_glued(ctx):
+    ctx.enumerate("C05.topo", enum_glued(ctx.tier != "quick"), label="two_or_three_closed_pieces_glued_in_0..3_vertices_x_scales_x_transforms", complete=ctx.tier != "quick")
 
 
 @subcheck("C05", "enum_f3", shards={"quick": 16, "thorough": 16})
